@@ -23,6 +23,7 @@ RULE = (
     "%(name)s replaced by the stringified variable and nothing else touched (tag: compared after collapsing whitespace runs). "
     "Non-trivial = message containing a % sign or a placeholder or a plural choice, distinct by source+data."
     " Rounds 5-6 added enumerated families: hyphenated and ?-suffixed placeholder names; percent signs inside variable values; count / plural / context combinations chosen independently of the enumeration order."
+    " Round 7 added: given-and-nil message variables under five undefined types."
 )
 REQUIRED = [
     ("liquid/extra/filters/translate.py", "BaseTranslateFilter.format_message"),
